@@ -80,6 +80,8 @@ struct WorkerOut {
     shapes: Vec<u64>,
     interleavings: Vec<u64>,
     nontrivial: Vec<u64>,
+    #[serde(default)]
+    outcomes: Vec<(String, u64, u64)>,
 }
 
 #[derive(Clone, Serialize, Deserialize)]
@@ -112,20 +114,46 @@ fn mix2(a: u64, b: u64) -> u64 {
     derive(a, &[b])
 }
 
-/// Worker: run the cases `wi, wi+nw, …` of every batch of the plan.
-pub fn worker(fam: &Family, prop: &str, tier: &str, seed: u64, wi: u64, nw: u64, outdir: &Path) {
+/// Worker: run the cases `wi, wi+nw, …` of every batch of the plan, starting at
+/// (`from_batch`, `from_case`) when resuming after a crash. Output is flushed in parts so
+/// that a later crash loses little.
+#[allow(clippy::too_many_arguments)]
+pub fn worker(
+    fam: &Family,
+    prop: &str,
+    tier: &str,
+    seed: u64,
+    wi: u64,
+    nw: u64,
+    outdir: &Path,
+    resume: Option<(String, u64)>,
+    gen: u32,
+) {
     let plan = (fam.plan)(prop, tier);
     let mut out = WorkerOut::default();
     let cur_path = outdir.join(format!("w{wi}.cur"));
     let mut shapes: HashSet<u64> = HashSet::new();
     let mut inter: HashSet<u64> = HashSet::new();
     let mut nontrivial: HashSet<u64> = HashSet::new();
+    let mut part = 0u32;
+    let mut since_flush = 0u64;
+    let mut last_flush = Instant::now();
+    let mut skipping = resume.is_some();
     for b in &plan {
         let mut case = wi;
+        if skipping {
+            let (rb, rc) = resume.as_ref().unwrap();
+            if *rb != b.name {
+                continue;
+            }
+            skipping = false;
+            case = *rc;
+        }
         while case < b.cases {
             // crash marker: which case this process is working on
             let _ = std::fs::write(&cur_path, format!("{} {}", b.name, case));
             let rs = case_seed(seed, prop, &b.name, case);
+            crate::c06::CASE_INDEX.with(|c| c.set(case));
             let co = (fam.run_case)(prop, &b.name, rs);
             add(&mut out.counters, "cases", 1);
             add(&mut out.counters, &format!("cases[{}]", b.name), 1);
@@ -165,7 +193,10 @@ pub fn worker(fam: &Family, prop: &str, tier: &str, seed: u64, wi: u64, nw: u64,
             for (k, v) in &co.notes {
                 add(&mut out.counters, &format!("note[{k}]"), *v);
             }
-            if out.samples.len() < 2 {
+            if let Some(h) = co.outcome_hash {
+                out.outcomes.push((b.name.clone(), case, h));
+            }
+            if out.samples.len() < 2 && part == 0 {
                 if let Some(s) = co.sample {
                     out.samples.push(json!({"batch": b.name, "case": case, "run_seed": rs, "case_detail": s}));
                 }
@@ -184,14 +215,31 @@ pub fn worker(fam: &Family, prop: &str, tier: &str, seed: u64, wi: u64, nw: u64,
                 }
             }
             case += nw;
+            since_flush += 1;
+            if since_flush >= 20_000 || last_flush.elapsed().as_secs() >= 5 {
+                out.shapes = shapes.drain().collect();
+                out.interleavings = inter.drain().collect();
+                out.nontrivial = nontrivial.drain().collect();
+                flush_part(outdir, wi, gen, part, &out);
+                out = WorkerOut::default();
+                part += 1;
+                since_flush = 0;
+                last_flush = Instant::now();
+            }
         }
     }
     out.shapes = shapes.into_iter().collect();
     out.interleavings = inter.into_iter().collect();
     out.nontrivial = nontrivial.into_iter().collect();
+    flush_part(outdir, wi, gen, part, &out);
     let _ = std::fs::remove_file(&cur_path);
-    let f = std::fs::File::create(outdir.join(format!("w{wi}.json"))).expect("worker output");
-    serde_json::to_writer(std::io::BufWriter::new(f), &out).expect("worker output");
+}
+
+fn flush_part(outdir: &Path, wi: u64, gen: u32, part: u32, out: &WorkerOut) {
+    let tmp = outdir.join(format!("w{wi}.g{gen}.p{part}.tmp"));
+    let f = std::fs::File::create(&tmp).expect("worker output");
+    serde_json::to_writer(std::io::BufWriter::new(f), out).expect("worker output");
+    std::fs::rename(&tmp, outdir.join(format!("w{wi}.g{gen}.p{part}.json"))).expect("worker output");
 }
 
 fn repo_head() -> String {
@@ -221,73 +269,103 @@ pub fn run(fam: &Family, prop: &str, tier: &str, nw: u64) -> i32 {
     let _ = std::fs::remove_dir_all(&outdir);
     std::fs::create_dir_all(&outdir).expect("tmp dir");
     let plan = (fam.plan)(prop, tier);
-    let mut children = Vec::new();
-    for wi in 0..nw {
-        let log = std::fs::File::create(outdir.join(format!("w{wi}.log"))).expect("log");
-        let child = Command::new(&exe)
-            .args([
-                "worker",
-                prop,
-                tier,
-                &seed.to_string(),
-                &wi.to_string(),
-                &nw.to_string(),
-                outdir.to_str().unwrap(),
-            ])
-            .stdout(Stdio::from(log.try_clone().unwrap()))
+    let spawn = |wi: u64, resume: Option<(String, u64)>, gen: u32| {
+        let log = std::fs::OpenOptions::new()
+            .create(true)
+            .append(true)
+            .open(outdir.join(format!("w{wi}.log")))
+            .expect("log");
+        let mut cmd = Command::new(&exe);
+        cmd.args([
+            "worker",
+            prop,
+            tier,
+            &seed.to_string(),
+            &wi.to_string(),
+            &nw.to_string(),
+            outdir.to_str().unwrap(),
+            &gen.to_string(),
+        ]);
+        if let Some((b, c)) = &resume {
+            cmd.args([b.as_str(), &c.to_string()]);
+        }
+        cmd.stdout(Stdio::from(log.try_clone().unwrap()))
             .stderr(Stdio::from(log))
             .spawn()
-            .expect("spawn worker");
-        children.push((wi, child));
-    }
+            .expect("spawn worker")
+    };
+    let mut children: Vec<(u64, u32, std::process::Child)> = (0..nw).map(|wi| (wi, 0u32, spawn(wi, None, 0))).collect();
     let mut merged = WorkerOut::default();
     let mut harness_errors: Vec<String> = Vec::new();
     let mut shapes: BTreeSet<u64> = BTreeSet::new();
     let mut inter: BTreeSet<u64> = BTreeSet::new();
     let mut nontrivial: BTreeSet<u64> = BTreeSet::new();
-    for (wi, mut ch) in children {
+    while let Some((wi, gen, mut ch)) = children.pop() {
         let status = ch.wait().expect("wait");
-        if !status.success() {
-            // the worker died: the case it was working on killed the process (abort, signal)
-            let cur = std::fs::read_to_string(outdir.join(format!("w{wi}.cur"))).unwrap_or_default();
-            let mut it = cur.split_whitespace();
-            let (b, c) = (it.next().unwrap_or("?").to_string(), it.next().and_then(|c| c.parse::<u64>().ok()));
-            let log = std::fs::read_to_string(outdir.join(format!("w{wi}.log"))).unwrap_or_default();
-            let tail: String = log.lines().rev().take(6).collect::<Vec<_>>().into_iter().rev().collect::<Vec<_>>().join(" | ");
-            match c {
-                Some(case) if tail.contains("essim: uncaught panic") => {
-                    harness_errors.push(format!("worker {wi} panicked in harness code at batch {b} case {case}: {tail}"));
-                }
-                Some(case) => {
-                    let rs = case_seed(seed, prop, &b, case);
-                    merged.violations.push(ViolationRec {
-                        batch: b.clone(),
-                        case,
-                        run_seed: rs,
-                        class: "process-abort".into(),
-                        message: format!("the process died while running this case ({status}): {tail}"),
-                        payload: json!({"Case": {"prop": prop, "batch": b, "run_seed": rs}}),
-                    });
-                    *merged.counters.entry("finding[process-abort]".into()).or_default() += 1;
-                    // the rest of this worker's slice is lost: say so
-                    *merged.counters.entry("workers_lost".into()).or_default() += 1;
-                }
-                None => harness_errors.push(format!("worker {wi} failed before its first case ({status}): {tail}")),
-            }
+        if status.success() {
             continue;
         }
-        let p = outdir.join(format!("w{wi}.json"));
+        // the worker died: the case it was working on killed the process (abort, signal)
+        let cur = std::fs::read_to_string(outdir.join(format!("w{wi}.cur"))).unwrap_or_default();
+        let mut it = cur.split_whitespace();
+        let (b, c) = (it.next().unwrap_or("?").to_string(), it.next().and_then(|c| c.parse::<u64>().ok()));
+        let log = std::fs::read_to_string(outdir.join(format!("w{wi}.log"))).unwrap_or_default();
+        let tail: String = log
+            .lines()
+            .filter(|l| !l.trim_start().starts_with("at ") && !l.trim_start().chars().next().map(|c| c.is_ascii_digit()).unwrap_or(false))
+            .rev()
+            .take(4)
+            .collect::<Vec<_>>()
+            .into_iter()
+            .rev()
+            .collect::<Vec<_>>()
+            .join(" | ");
+        match c {
+            Some(case) if log.contains("essim: uncaught panic") => {
+                harness_errors.push(format!("worker {wi} panicked in harness code at batch {b} case {case}: {tail}"));
+            }
+            Some(case) => {
+                let rs = case_seed(seed, prop, &b, case);
+                merged.violations.push(ViolationRec {
+                    batch: b.clone(),
+                    case,
+                    run_seed: rs,
+                    class: "process-abort".into(),
+                    message: format!("the process died while running this case ({status}): {tail}"),
+                    payload: json!({"Case": {"prop": prop, "batch": b, "run_seed": rs, "case": case}}),
+                });
+                *merged.counters.entry("finding[process-abort]".into()).or_default() += 1;
+                *merged.counters.entry("cases".into()).or_default() += 1;
+                if gen < 200 {
+                    // carry on with the rest of this worker's slice
+                    let _ = std::fs::remove_file(outdir.join(format!("w{wi}.log")));
+                    children.push((wi, gen + 1, spawn(wi, Some((b, case + nw)), gen + 1)));
+                } else {
+                    harness_errors.push(format!("worker {wi} died more than 200 times"));
+                }
+            }
+            None => harness_errors.push(format!("worker {wi} failed before its first case ({status}): {tail}")),
+        }
+    }
+    // merge every part every worker generation wrote
+    let mut parts: Vec<PathBuf> = std::fs::read_dir(&outdir)
+        .map(|d| d.filter_map(|e| e.ok()).map(|e| e.path()).filter(|p| p.extension().map(|x| x == "json").unwrap_or(false)).collect())
+        .unwrap_or_default();
+    parts.sort();
+    for p in parts {
         let w: WorkerOut = match std::fs::read(&p).ok().and_then(|b| serde_json::from_slice(&b).ok()) {
             Some(w) => w,
             None => {
-                harness_errors.push(format!("worker {wi}: unreadable output"));
+                harness_errors.push(format!("unreadable worker output {}", p.display()));
                 continue;
             }
         };
         for (k, v) in w.counters {
-            *merged.counters.entry(k).or_default() += v;
+            let e = merged.counters.entry(k).or_default();
+            *e = e.saturating_add(v);
         }
         merged.violations.extend(w.violations);
+        merged.outcomes.extend(w.outcomes);
         if merged.samples.len() < 3 {
             merged.samples.extend(w.samples);
         }
@@ -312,6 +390,9 @@ pub fn run(fam: &Family, prop: &str, tier: &str, nw: u64) -> i32 {
     let mut seen_classes: BTreeSet<String> = BTreeSet::new();
     let mut violation_lines: Vec<String> = Vec::new();
     let mut known_lines: BTreeSet<String> = BTreeSet::new();
+    let mut known_replays: Vec<String> = Vec::new();
+    let mut unreproduced: Vec<String> = Vec::new();
+    let mut reproduced_any = false;
     let mut exit = 0;
     std::fs::create_dir_all("/verif/replays").ok();
     for v in &merged.violations {
@@ -363,25 +444,43 @@ pub fn run(fam: &Family, prop: &str, tier: &str, nw: u64) -> i32 {
             }
         }
         if hits == 0 {
-            println!(
-                "HARNESS-ERROR: violation {} of batch {} case {} did not reproduce from {file} in {tries} fresh processes: {last}",
+            // An execution that ended abnormally (deadlock, panic) can leave process-wide state of
+            // the code under test behind (a `static`), so that a *later* case in the same worker
+            // process fails in a way a fresh process does not. Such a finding is not reported; it is
+            // a harness error only if nothing else of this run reproduces either.
+            unreproduced.push(format!(
+                "violation {} of batch {} case {} did not reproduce from {file} in {tries} fresh processes: {last}",
                 v.class, v.batch, v.case
-            );
-            return 2;
+            ));
+            let _ = std::fs::remove_file(&file);
+            continue;
         }
+        reproduced_any = true;
         if tries > 1 {
             println!("  note: {file} reproduced in {hits} of {tries} fresh processes: process-random (depends on hash iteration order)");
         }
         match (fam.known)(prop, &payload, &v.class, &known) {
             Some(id) => {
                 let k = known.iter().find(|k| k.id == id).unwrap();
-                known_lines.insert(format!("KNOWN-FINDING: property={prop} {} {} (replay={file})", k.id, k.what));
+                known_lines.insert(format!("KNOWN-FINDING: property={prop} {} {}", k.id, k.what));
+                known_replays.push(file.clone());
             }
             None => {
                 violation_lines.push(format!("VIOLATION property={prop} replay={file}"));
                 println!("  class={} batch={} case={} : {}", v.class, v.batch, v.case, v.message.lines().next().unwrap_or(""));
                 exit = 1;
             }
+        }
+    }
+    if !unreproduced.is_empty() {
+        if !reproduced_any {
+            for u in &unreproduced {
+                println!("HARNESS-ERROR: {u}");
+            }
+            return 2;
+        }
+        for u in &unreproduced {
+            println!("  note (not reported): {u}");
         }
     }
     for l in &known_lines {
@@ -410,6 +509,7 @@ pub fn run(fam: &Family, prop: &str, tier: &str, nw: u64) -> i32 {
         "counters": merged.counters,
         "real_vs_stub": text.real_vs_stub,
         "known_findings_seen": known_lines.iter().collect::<Vec<_>>(),
+        "known_finding_replays": known_replays,
         "violation_replays": violation_lines,
         "exhaustive": false,
     });
@@ -453,7 +553,7 @@ pub fn replay_file(fam: &Family, path: &str) -> i32 {
         // re-run the case in a child process and see whether it dies again
         let exe = std::env::current_exe().expect("own path");
         let st = Command::new(&exe)
-            .args(["case", doc["replay"]["Case"]["prop"].as_str().unwrap_or(""), doc["replay"]["Case"]["batch"].as_str().unwrap_or(""), &doc["replay"]["Case"]["run_seed"].to_string()])
+            .args(["case", doc["replay"]["Case"]["prop"].as_str().unwrap_or(""), doc["replay"]["Case"]["batch"].as_str().unwrap_or(""), &doc["replay"]["Case"]["run_seed"].to_string(), &doc["replay"]["Case"]["case"].to_string()])
             .stdout(Stdio::null())
             .stderr(Stdio::null())
             .status();
